@@ -122,7 +122,7 @@ func c15(r *core.Run) {
 	p := r.P
 	defer c15Extra(r, discovInt)
 	defer c15ExtraSub(r, discovPkg)
-	r.Explanation = "Decides on the current source: every path through the reload diff (cluster.handleChanges) stores, under the lock, a fresh map filled from the loaded key/values into c.values[key]; cluster, container and Registry maps are touched only under their locks; watch events update the snapshot before the listeners of the key are called, Put ⇒ OnAdd and Delete ⇒ OnDelete with the event's own key and value; container.OnAdd/OnDelete mutate and then always notify, values is keyed by the published value and mapping by the key, dirty is set before any mutation and cleared only after the snapshot was stored; exclusive mode removes earlier keys only when exclusive is set; reload closes done, waits for the watchers, installs a new channel and group under the lock and then loads-and-watches every listened key; Registry.Monitor replays getCurrent(key) to a listener joining an existing cluster before monitoring."
+	r.Explanation = "Decides on the current source: every path through the reload diff (cluster.handleChanges) stores, under the lock, a fresh map filled from the loaded key/values into c.values[key]; cluster, container and Registry maps are touched only under their locks; watch events update the snapshot before the listeners of the key are called, Put ⇒ OnAdd and Delete ⇒ OnDelete with the event's own key and value; container.OnAdd/OnDelete mutate and then always notify, values is keyed by the published value and mapping by the key, dirty is set before any mutation, with the container lock held in the same hold of the lock as the mutation (or else after it), and cleared only after the snapshot was stored; exclusive mode removes earlier keys only when exclusive is set; reload closes done, waits for the watchers, installs a new channel and group under the lock and then loads-and-watches every listened key; Registry.Monitor replays getCurrent(key) to a listener joining an existing cluster before monitoring."
 	r.NotDecided = "convergence over event/fault histories, the revision arithmetic of load/watch, etcd client behaviour, races between reload and a concurrently running watch callback."
 
 	isValuesLoad := core.FieldLoad("cluster.values")
